@@ -11,7 +11,7 @@ def run(ctx):
                                env={"GEN_DEPTH": 30 if quick else 45})[:n]
     ctx.cov["behaviours_replayed"] = len(behs)
     ctx.cov["fault_annotations"] = {f: sum(1 for b in behs for s in b if s["fault"] == f) for f in
-                                    ("fail", "crashBefore", "crashAfter", "crashBetween", "loadFail")}
+                                    ("fail", "crashBefore", "crashAfter", "crashBetween", "loadFail", "crashRace")}
     ctx.sample({"annotated_requests_head": [{"op": s["req"]["op"], "id": s["req"]["k"]["id"], "fault": s["fault"]} for s in behs[0][:10]]})
     inp = os.path.join(ctx.scratch, "pbehs.json")
     json.dump(behs, open(inp, "w"))
@@ -26,6 +26,7 @@ def run(ctx):
     details = [x for x in r.out.splitlines() if x.startswith('<<"DETAIL"')]
     ctx.cov["traces_validated_against_impl"] += len(traces)
     ctx.cov["crashes_executed"] = len([x for x in recs if x["ev"] == "crash"])
+    ctx.cov["concurrent_first_accesses"] = len([x for x in recs if x["ev"] == "raceread"]) // 2
     ctx.cov["injected_failures_reached"] = len([x for x in recs if x["ev"] == "op" and x["inj"]])
     ctx.sample({"trace_line": {k: v for k, v in recs[1].items() if k in ("ev", "cls", "nev", "inj", "contents", "disk")}})
     bad = set()
